@@ -120,7 +120,28 @@ func isBytes(t types.Type) bool {
 
 func isError(t types.Type) bool { return t.String() == "error" }
 
+// isFloat: float32 / float64 - a value of these types is carried as its IEEE bit pattern
+func isFloat(t types.Type) (int, bool) {
+	if b, ok := t.Underlying().(*types.Basic); ok {
+		switch b.Kind() {
+		case types.Float64, types.UntypedFloat:
+			return 64, true
+		case types.Float32:
+			return 32, true
+		}
+	}
+	return 0, false
+}
+
 func coqType(t types.Type, at ast.Node) string {
+	if _, ok := isFloat(t); ok {
+		return "N"
+	}
+	if arr, ok := t.Underlying().(*types.Array); ok {
+		if b, ok := arr.Elem().Underlying().(*types.Basic); ok && b.Kind() == types.Uint8 {
+			return "bytes" // a byte array, as the list of its elements
+		}
+	}
 	if k, ok := intKind(t); ok {
 		if k.signed {
 			return "Z"
@@ -161,6 +182,12 @@ func structName(t types.Type) (string, bool) {
 }
 
 func zeroOf(t types.Type, at ast.Node) string {
+	if _, ok := isFloat(t); ok {
+		return "0%N"
+	}
+	if arr, ok := t.Underlying().(*types.Array); ok {
+		return fmt.Sprintf("(repeat 0%%N %d)", arr.Len())
+	}
 	if k, ok := intKind(t); ok {
 		if k.signed {
 			return "0%Z"
@@ -375,6 +402,12 @@ func (g *gen) fresh(base string) string {
 // slicing) are hoisted into *pre as "do x <- ...;" lines, in evaluation order.
 func (g *gen) expr(e ast.Expr, pre *[]string) string {
 	tv := info.Types[e]
+	if _, isF := isFloat(tv.Type); isF && tv.Value != nil {
+		if constant.Sign(tv.Value) == 0 {
+			return "0%N" // the bit pattern of +0
+		}
+		fail(e, "floating-point constant other than 0")
+	}
 	if tv.Value != nil && tv.Value.Kind() == constant.Int {
 		k, ok := intKind(tv.Type)
 		if !ok {
@@ -469,6 +502,9 @@ func (g *gen) expr(e ast.Expr, pre *[]string) string {
 	case *ast.CallExpr:
 		return g.call(x, pre)
 	case *ast.SliceExpr:
+		if x.Max == nil && x.Low == nil && x.High == nil {
+			return g.expr(x.X, pre) // b[:] : the whole of it
+		}
 		if x.Max != nil || (x.Low == nil) == (x.High == nil) {
 			fail(e, "unsupported slice expression")
 		}
@@ -507,6 +543,17 @@ func posOf(n ast.Node) string {
 
 func (g *gen) binary(x *ast.BinaryExpr, pre *[]string) string {
 	lt := info.Types[x.X].Type
+	if w, isF := isFloat(lt); isF {
+		// the only floating-point operation in the subset: comparison with the constant 0
+		if yv := info.Types[x.Y].Value; yv != nil && constant.Sign(yv) == 0 && (x.Op == token.EQL || x.Op == token.NEQ) {
+			t := fmt.Sprintf("(go_f%d_is_zero %s)", w, g.expr(x.X, pre))
+			if x.Op == token.NEQ {
+				return "(negb " + t + ")"
+			}
+			return t
+		}
+		fail(x, "floating-point operation outside the subset")
+	}
 	switch x.Op {
 	case token.LAND, token.LOR:
 		a := g.expr(x.X, pre)
@@ -660,6 +707,17 @@ func (g *gen) call(x *ast.CallExpr, pre *[]string) string {
 			return "(" + coqName(funcs[f.Name]) + " " + strings.Join(args, " ") + ")"
 		}
 	case *ast.SelectorExpr:
+		if inner, ok := f.X.(*ast.SelectorExpr); ok {
+			if p, ok := inner.X.(*ast.Ident); ok && p.Name == "binary" && inner.Sel.Name == "LittleEndian" {
+				width := map[string]int{"Uint64": 8, "Uint32": 4, "Uint16": 2}[f.Sel.Name]
+				if width == 0 || !g.mon {
+					fail(x, "unsupported use of binary.LittleEndian")
+				}
+				t := g.fresh("le")
+				*pre = append(*pre, fmt.Sprintf("do %s <- go_le_get \"%s.%s\" %d %s;", t, g.fn.Name.Name, t, width, g.expr(x.Args[0], pre)))
+				return t
+			}
+		}
 		if p, ok := f.X.(*ast.Ident); ok {
 			if mk := methodKey(f); mk != "" {
 				fd := funcs[mk]
@@ -697,6 +755,8 @@ func (g *gen) call(x *ast.CallExpr, pre *[]string) string {
 			}
 			name := p.Name + "." + f.Sel.Name
 			switch name {
+			case "math.Float64bits", "math.Float64frombits", "math.Float32bits", "math.Float32frombits":
+				return g.expr(x.Args[0], pre) // floats travel as their bit patterns
 			case "binary.Uvarint":
 				return "(go_binary_Uvarint " + g.expr(x.Args[0], pre) + ")"
 			case "bits.Len64":
@@ -930,6 +990,28 @@ func (g *gen) block(stmts []ast.Stmt, k string, retwrap func(string) string, ind
 		cur := g.expr(x.X, &pre)
 		return strings.Join(pre, "\n"+ind) + nl(pre, ind) + g.store(x.X, fmt.Sprintf("(%s%s %s %s %s)", sgn(k0), op, wd(k0), cur, one), ind) + rest()
 	case *ast.ExprStmt:
+		// binary.LittleEndian.PutUint64(b[:], v): b becomes the little-endian bytes of v
+		if c, ok := x.X.(*ast.CallExpr); ok {
+			if f, ok := c.Fun.(*ast.SelectorExpr); ok {
+				if inner, ok := f.X.(*ast.SelectorExpr); ok {
+					if p, ok := inner.X.(*ast.Ident); ok && p.Name == "binary" && inner.Sel.Name == "LittleEndian" {
+						width := map[string]int{"PutUint64": 8, "PutUint32": 4, "PutUint16": 2}[f.Sel.Name]
+						sl, isSl := c.Args[0].(*ast.SliceExpr)
+						if width == 0 || !isSl || sl.Low != nil || sl.High != nil {
+							fail(x, "unsupported use of binary.LittleEndian")
+						}
+						arr, isArr := info.Types[sl.X].Type.Underlying().(*types.Array)
+						id, isId := sl.X.(*ast.Ident)
+						if !isArr || !isId || int(arr.Len()) != width {
+							fail(x, "PutUint into something other than a whole array of its size")
+						}
+						var pre []string
+						v := g.expr(c.Args[1], &pre)
+						return strings.Join(pre, "\n"+ind) + nl(pre, ind) + fmt.Sprintf("let %s := (go_le_put %d %s) in\n%s", sane(id.Name), width, v, ind) + rest()
+					}
+				}
+			}
+		}
 		// a call of a method that changes the receiver: j.m(args)
 		if c, ok := x.X.(*ast.CallExpr); ok {
 			if sel, ok := c.Fun.(*ast.SelectorExpr); ok {
@@ -952,7 +1034,10 @@ func (g *gen) block(stmts []ast.Stmt, k string, retwrap func(string) string, ind
 		fail(s, "unsupported statement")
 	case *ast.IfStmt:
 		if x.Init != nil {
-			fail(x, "if with an initialiser")
+			// if v := e; cond { ... }: the variable lives in the if only; names are not re-used afterwards in the subset
+			cp := *x
+			cp.Init = nil
+			return g.block(append([]ast.Stmt{x.Init, &cp}, stmts[1:]...), k, retwrap, ind)
 		}
 		var pre []string
 		c := g.expr(x.Cond, &pre)
